@@ -85,7 +85,7 @@ def St.init : St := ⟨[], 0⟩
 
 /-- `Indexer::add_record`; `none` = `Err(InvalidInput "invalid reference sequence ID")`, the only
 refusal there is: a reference id smaller than the current (last) one. Nothing is changed then. -/
-def addRecord (linear : Bool) (ms d : Nat) (st : St) (c : Call) : Option St :=
+def addRecordCore (linear : Bool) (ms d : Nat) (st : St) (c : Call) : Option St :=
   match c.ctx with
   | none => some { st with unplaced := st.unplaced + 1 }
   | some (rid, s, e, mapped) =>
@@ -95,6 +95,20 @@ def addRecord (linear : Bool) (ms d : Nat) (st : St) (c : Call) : Option St :=
     else
       let refs := if cur < rid then resizeWith refs (rid + 1) else refs
       some { st with refs := updAt (refUpdate linear ms d s e mapped c.chunk) rid refs }
+
+/-- the range test of `add_record` (since fix "csi indexer accepted a record beyond the last position of
+the binning scheme"): `1usize.checked_shl(min_shift + 3·depth).is_none_or(|n| position < n)` fails for
+`start` or `end`. `2^(ms + d·3) - 1` is `maxPos` below (the same bound `resolve_interval` applies to a
+query); for a shift of 64 or more `checked_shl` is `None` on a 64-bit target and nothing is refused. -/
+def beyond (ms d s e : Nat) : Bool :=
+  decide (ms + d*3 < 64) && (decide (2^(ms + d*3) - 1 < s) || decide (2^(ms + d*3) - 1 < e))
+
+/-- `Indexer::add_record`: an unplaced record is counted; a placed one is refused (`InvalidInput`,
+nothing changed) when a coordinate lies beyond the geometry, otherwise as `addRecordCore` -/
+def addRecord (linear : Bool) (ms d : Nat) (st : St) (c : Call) : Option St :=
+  match c.ctx with
+  | none => addRecordCore linear ms d st c
+  | some (_, s, e, _) => if beyond ms d s e then none else addRecordCore linear ms d st c
 
 /-- a history of `add_record` calls, stopping at the first refusal -/
 def run (linear : Bool) (ms d : Nat) : St → List Call → Option St
@@ -135,5 +149,18 @@ def Call.Valid (ms d R : Nat) (c : Call) : Prop :=
   c.chunk.s < 2^64 ∧ c.chunk.e < 2^64 ∧
   ∀ rid s e m, c.ctx = some (rid, s, e, m) →
     rid < R ∧ 1 ≤ s ∧ s ≤ maxPos ms d ∧ 1 ≤ e ∧ e ≤ maxPos ms d
+
+/-- within the geometry the range test never fires -/
+theorem addRecord_eq_core (linear : Bool) (ms d R : Nat) (st : St) (c : Call) (hv : c.Valid ms d R) :
+    addRecord linear ms d st c = addRecordCore linear ms d st c := by
+  unfold addRecord
+  cases hctx : c.ctx with
+  | none => rfl
+  | some t =>
+    obtain ⟨rid, s, e, m⟩ := t
+    have h := hv.2.2 rid s e m hctx
+    have hs : ¬ (2^(ms + d*3) - 1 < s) := by have := h.2.2.1; unfold maxPos at this; omega
+    have he : ¬ (2^(ms + d*3) - 1 < e) := by have := h.2.2.2.2; unfold maxPos at this; omega
+    simp [beyond, hs, he]
 
 end Noodles.Csi.Reach
